@@ -136,6 +136,27 @@ def rule_conversion(ctx: Ctx, repo: Repo) -> Dict[str, str]:
         ctx.check(ok, "R-C10.2", tt.fq, f"a stale row raises a subclass of {tol}, which get_stub tolerates",
                   construct=f"{name}: to_trace raises {res} (not a {tol})", kind=name)
     ctx.floor("R-C10.2", "stale-row scenarios", len(scenarios), 30)
+    # the same within ONE process: the row decoded fine a moment ago (e.g. an earlier `stub` call of a long-running tool, or
+    # the previous row of the same function), then the name went away - the second decode must notice
+    nh = 0
+    for name, tr, mutate in scenarios:
+        if tr.fields["func"] != f:
+            continue
+        w0, _ = _intact()
+        row = _row(repo, w0, tr)
+        sc1 = CodecScenario(repo, ENC, "CallTraceRow.to_trace", w0)
+        k1, _r1 = sc1.result({tt.positional_params()[0]: row})
+        if k1 != "return":
+            continue
+        w1, _ = _intact()
+        mutate(w1)
+        sc2 = CodecScenario(repo, ENC, "CallTraceRow.to_trace", w1)
+        k2, res2 = sc2.result({tt.positional_params()[0]: row}, carry=sc1.last_state)
+        nh += 1
+        ctx.check(k2 == "raise" and exc_is(res2, tol, hier), "R-C10.2", tt.fq,
+                  "a row whose name became stale after an earlier successful decode in the same process is still noticed (nothing resolved earlier is remembered)",
+                  construct=f"{name}, after a successful decode of the same row: {k2} {str(res2)[:80]}", kind="history:" + name)
+    ctx.floor("R-C10.2", "decode-then-stale histories", nh, 25)
     # sanity of the model: the intact world decodes
     w0, _ = _intact()
     k, res = CodecScenario(repo, ENC, "CallTraceRow.to_trace", w0).result({tt.positional_params()[0]: _row(repo, w0, trace(arg=OTHER, ret=CM.gen("List", NESTED)))})
@@ -362,32 +383,83 @@ def rule_status(ctx: Ctx, repo: Repo) -> None:
 
 
 def rule_params_ignored(ctx: Ctx, repo: Repo) -> None:
-    """R-C10.3: update_signature_args only looks traced types up by the names of the signature's own parameters."""
+    """R-C10.3: traced argument names that are no longer parameters (a stale row recorded before a rename) are ignored by
+    the signature update - update_signature_args interpreted with stale names mixed into the traced types."""
+    from . import sig_model as SM
+    from .sig_model import EMPTY, StubScenario, param, sig
     fi = repo.fn("monkeytype.stubs", "update_signature_args")
     ctx.functions.add(fi.fq)
     ps = fi.positional_params()
-    sig, arg_types = ps[0], ps[1]
-    loops = [x for x in walk_no_nested(fi.node) if isinstance(x, ast.For)]
-    ok = len(loops) == 1
-    if ok:
-        it = loops[0].iter
-        src = it.args[0] if is_call_to(it, "enumerate") and it.args else it
-        base = src.func.value if isinstance(src, ast.Call) and isinstance(src.func, ast.Attribute) and src.func.attr in ("items", "values", "keys") else src
-        ok = dotted(base) == f"{sig}.parameters"
-    ctx.check(ok, "R-C10.3", fi.fq, "the new parameter list is built by iterating the signature's own parameters", construct="; ".join(norm(l.iter) for l in loops))
-    uses = [x for x in walk_no_nested(fi.node) if isinstance(x, ast.Name) and x.id == arg_types]
-    bad = []
-    parent = {id(c): p for p in ast.walk(fi.node) for c in ast.iter_child_nodes(p)}
-    for u in uses:
-        p = parent.get(id(u))
-        if isinstance(p, ast.Attribute) and p.attr == "get":
+    names = ["a", "b", "c"]
+    n = 0
+    for strategy in (SM.REPLICATE, SM.IGNORE, SM.OMIT):
+        for traced in ((), ("a",), ("a", "c")):
+            for stale in (("gone",), ("gone", "also_gone"), ("z_last", "A_first")):
+                params = [param(x, EMPTY) for x in names]
+                items = tuple((K(x), S("T:" + x)) for x in stale[:1]) + tuple((K(x), S("T:" + x)) for x in traced) + tuple((K(x), S("T:" + x)) for x in stale[1:])
+                res = StubScenario(repo, "update_signature_args").result({ps[0]: sig(params, EMPTY), ps[1]: R("dict", items=items), ps[2]: K(False), ps[3]: strategy})
+                n += 1
+                lab = f"{strategy.name.split('.')[-1]}, traced {list(traced)} + stale {list(stale)}"
+                if not (isinstance(res, R) and res.kind == "sig"):
+                    ctx.violate("R-C10.3", fi.fq, f"{lab}: {str(res)[:100]}", "a stale parameter name breaks the signature update")
+                    continue
+                new = res.fields["parameters"]
+                its = list(new.fields["items"]) if isinstance(new, R) and new.kind == "list" else ([v for _, v in new.fields["items"]] if isinstance(new, R) and new.kind == "dict" else None)
+                got = [q.fields["name"].v for q in its if isinstance(q, R) and q.kind == "param"] if its is not None else None
+                ctx.check(got == names, "R-C10.3", fi.fq, "traced argument names that are not parameters of the function are ignored (no new parameter, none lost)",
+                          construct=f"{lab}: parameters {got}")
+                if its is not None and got == names:
+                    anns = {q.fields["name"].v: q.fields["annotation"] for q in its}
+                    ok = all(anns[x] == S("T:" + x) for x in traced) and all(anns[x] == EMPTY for x in names if x not in traced)
+                    ctx.check(ok, "R-C10.3", fi.fq, "the real parameters still receive exactly their own traced types", construct=f"{lab}: {anns}")
+    ctx.floor("R-C10.3", "signature updates with stale names", n, 20)
+    # the merge before it: rows of one function recorded with different parameter names (before / after a rename, a
+    # parameter added or removed) are merged name by name, in whatever order the store returns them
+    import itertools
+    from .sig_model import ST
+    stt = repo.fn(ST, "shrink_traced_types")
+    ctx.functions.add(stt.fq)
+    sps = stt.positional_params()
+    INT, STR = S("t:int"), S("t:str")
+
+    def tr(args: Dict[str, V]) -> R:
+        return R("inst", __cls__=K("monkeytype.tracing.CallTrace"), func=S("func:f"), arg_types=R("dict", items=tuple((K(k), v) for k, v in args.items())),
+                 return_type=INT, yield_type=K(None))
+
+    rows = [tr({"a": INT, "b": STR}), tr({"a": STR, "old_name": INT}), tr({"a": INT})]
+    m = 0
+    for perm in itertools.permutations(range(len(rows))):
+        sc = StubScenario(repo, "shrink_traced_types")
+        sc.ri.heap = True
+
+        def hook(call, fname, fval, args, kwargs, st):
+            if fname == "shrink_types":
+                return R("shrunk", of=st.freeze(args[0]))
+            if fname == "collections.defaultdict" and args and args[0] == S("builtin:set"):
+                return st.alloc("defaultdict", ("dd", "set", {}))
+            return None
+        sc.extra_hook = hook
+        o = sc.run({sps[0]: K(tuple(rows[i] for i in perm)), sps[1]: K(0)})
+        m += 1
+        lab = f"rows with parameter sets {[sorted(k.v for k, _ in rows[i].fields['arg_types'].fields['items']) for i in perm]}"
+        if o.term is None or o.term[0] != "return":
+            ctx.violate("R-C10.3", stt.fq, f"{lab}: {o.term}", "rows of one function with different parameter names are fatal for stub generation")
             continue
-        if isinstance(p, ast.Subscript) and p.value is u:
-            continue
-        if isinstance(p, ast.Compare):
-            continue
-        bad.append(norm(p) if p is not None else u.id)
-    ctx.check(not bad, "R-C10.3", fi.fq, "traced argument names are only looked up, never iterated into new parameters", construct=f"{bad}")
+        res = o.freeze(o.term[1])
+        at = res.v[0] if isinstance(res, K) and isinstance(res.v, tuple) and res.v else None
+        got = {k.v: v for k, v in at.fields["items"]} if isinstance(at, R) and at.kind == "dict" else None
+        def members(x: Any) -> Any:
+            of = x.fields["of"] if isinstance(x, R) and x.kind == "shrunk" else None
+            if isinstance(of, K) and isinstance(of.v, (frozenset, tuple)):
+                return frozenset(of.v)
+            if isinstance(of, R) and of.kind == "list":
+                return frozenset(of.fields["items"])
+            return None
+        want = {"a": frozenset({INT, STR}), "b": frozenset({STR}), "old_name": frozenset({INT})}
+        ok = got is not None and {k: members(v) for k, v in got.items()} == want
+        ctx.check(ok, "R-C10.3", stt.fq, "each recorded parameter name is merged over the rows that have it (rows need not agree on the names)",
+                  construct=f"{lab}: {None if got is None else {k: sorted(map(str, members(v) or [])) for k, v in got.items()}}")
+    ctx.floor("R-C10.3", "row orders with differing parameter names", m, 6)
 
 
 TIER = "quick"
